@@ -14,7 +14,8 @@ def content(n):
 
 
 def specs(size):
-    out = [None, b"", b"bytes=", b"bytes=-", b"bytes=x", b"bytes=1-2,4-5", b"bytes=0-0,-1", b"items=0-1", b"Bytes=0-1", b"bytes=0-1 ", b"bytes= 0-1",
+    out = [None, b"", b"bytes=,", b"bytes= , ,", b"bytes=,0-1", b"bytes=,,2-3", b"bytes=20-30,2-4", b"bytes=5-2,0-1", b"bytes=abc,1-2", b"bytes=99-,0-0", b"bytes=-99,1-1",
+           b"bytes=", b"bytes=-", b"bytes=x", b"bytes=1-2,4-5", b"bytes=0-0,-1", b"items=0-1", b"Bytes=0-1", b"bytes=0-1 ", b"bytes= 0-1",
            b"bytes=+1-2", b"bytes=1- 2", b"bytes=1 -2", b"bytes=-+3", b"bytes=0-+0, 5-6", b"bytes=+0-", b"bytes=1-+2", b"bytes= -2", b"bytes=- 2", b"bytes=--2", b"bytes=1--2",
            b"bytes=2147483647-", b"bytes=0-2147483648", b"bytes=-4294967296", b"bytes=00-01", b"bytes=1-0", b"bytes=0-", b"bytes=-1"]
     for x in range(-2, size + 3):
